@@ -425,7 +425,10 @@ def gen_area_case(g, k):
             norms.add(max(a))          # the implementation's choice, legitimate when positive
         v = set()
         for nm in norms:
-            na = area / nm if nm > 0 else math.inf
+            if not nm > 0:
+                v.add("amb")      # all-zero reference: the normalised area is undefined
+                continue
+            na = area / nm
             v.add("ok" if na <= p * (1 - 1e-6) else ("bad" if na > p * (1 + 1e-6) else "amb"))
         exp = "success" if v == {"ok"} else ("failure" if v == {"bad"} else "amb")
     return {"k": k, "t": t, "a": a, "tb": tb, "b": b, "p": p, "cls": cls if cls != "zero" else "zero", "kind": kind, "expected": exp,
